@@ -211,6 +211,10 @@ def frame_classification(rot, min_points, scales, two_objects, sym_points=1):
         else:
             parts[f"g{k}_detected_iff_enough_points"] = L.Implies(no_boundary, L.Iff(where[0], n_in_lo >= min_points))
             parts[f"g{k}_not_warning"] = not where[2]
+    # the frame result alone must also remove the points of every box (the cloud handed in is only area-cropped here)
+    res_b = SensingFrameResult(cfg, 0, "0")
+    res_b.evaluate_frame(objs, pc, [crop_pointcloud(pc, area)])
+    failed_b = [tuple(r) for arr in res_b.pointcloud_failed_non_detection for r in _rows(arr)]
     # failed non-detection points = in the prism and outside every scaled box (away from the surfaces)
     failed = [tuple(r) for arr in res.pointcloud_failed_non_detection for r in _rows(arr)]
     for i, p in enumerate(pts):
@@ -224,6 +228,10 @@ def frame_classification(rot, min_points, scales, two_objects, sym_points=1):
             all(float(a) == float(b) for a, b in zip(r, p)) for r in failed)
         parts[f"p{i}_failed_when_in_area_and_outside_boxes"] = L.Implies(L.And(in_prism, out_all), listed)
         parts[f"p{i}_not_failed_when_in_a_box_or_outside_area"] = L.Implies(L.Or(out_prism, in_some), not listed)
+        listed_b = any(all(a is b for a, b in zip(r, p)) for r in failed_b) if symx.is_symbolic() else any(
+            all(float(a) == float(b) for a, b in zip(r, p)) for r in failed_b)
+        parts[f"p{i}_frame_result_alone_failed_iff_outside_boxes"] = L.And(
+            L.Implies(L.And(in_prism, out_all), listed_b), L.Implies(L.Or(out_prism, in_some), not listed_b))
     return Out(parts=parts, obs={"success": len(res.detection_success_results), "fail": len(res.detection_fail_results),
                                  "warning": len(res.detection_warning_results), "failed_points": len(failed)})
 
